@@ -171,8 +171,11 @@ TExit == /\ IsEvent("asm.exit")
          /\ LET w == WI(Ev.g) IN
             /\ exited' = exited \cup {w} /\ workerErr' = (workerErr \/ inflight[w] # NoJob)
             /\ inflight' = [inflight EXCEPT ![w] = NoJob]
+            \* a job a worker gave up on was handed out all the same: the feeder, which may offer the next segment before it notices the
+            \* cancelled context, has not skipped it
+            /\ done' = IF inflight[w] # NoJob /\ SegAt(inflight[w][1]) > 0 THEN done \cup {SegAt(inflight[w][1])} ELSE done
             /\ bad' = bad \cup Flag(Frame(inflight[w]), "target changed outside the job's range")
-         /\ TakeSnap /\ WUnch /\ UNCHANGED <<offered, done, storefail>>
+         /\ TakeSnap /\ WUnch /\ UNCHANGED <<offered, storefail>>
 
 \* ---------------------------------------------------------------- self-seed (log points under its lock)
 TSSAdd == /\ IsEvent("ss.add")
